@@ -80,6 +80,8 @@ struct PipeCfg
   int outbuf = 0; // stdio buffering of the output stream: 0 default, 1 unbuffered, 2 64-byte buffer
   bool want_events = false;
   bool want_log = false;
+  long in_fail_at = -1; // >= 0: reads of the input stream at or beyond this offset fail with EIO
+  bool in_fail_once = false; // ... only the first of them (transient error; stdio's error flag stays set)
   long fail_new = -2; // >= 0: the n-th allocation of the code under test fails once (std::bad_alloc); -1: count only; -2: off
 };
 
